@@ -121,13 +121,24 @@ def check_qs_run(ctx, unit):
             if c.kind != "BinaryOperator":
                 continue
             a, b = c.children
-            pa, pb = path(a), path(b)
+
+            def is_target(x):
+                """the target of the node at the front of the queue: a field of the node local, or of front() itself (the
+                queue is not touched between the test and the fetch)"""
+                px = path(x)
+                if px and px[-1] == "_target_qs_counter":
+                    return True
+                xs = std_unwrap(x)
+                if xs.kind == "MemberExpr" and xs.m == "_target_qs_counter" and xs.children:
+                    bs = std_unwrap(xs.children[0])
+                    return bs.is_call() and bs.callee is not None and bs.callee["n"] == "front"
+                return False
             # normalise to "ctr OP target"
             op = c.op
-            if pa and pa[-1] == "_target_qs_counter":
+            if is_target(a):
                 a, b = b, a
                 op = {"<": ">", ">": "<", "<=": ">=", ">=": "<="}.get(op, op)
-            elif not (pb and pb[-1] == "_target_qs_counter"):
+            elif not is_target(b):
                 continue
             holds_ge = (op == "<" and t is False) or (op == ">=" and t is True)
             src = RA.resolve_local(f, a, inits)
